@@ -177,6 +177,10 @@ def run(prop, tier, seed, replay=None):
                      "passed the metainfo hash'", "bounds: 2-3 pieces of 1-2 (abstract) chunks, 2-4 threads, one operation "
                      "per thread in TLC-generated behaviours, 4 per thread in random schedules",
                      "yield points are the only places where goroutines are interleaved by the gated replay"]
+    if replay and json.load(open(replay))["scenario"].get("kind") == "farread":
+        import p_http
+        p_http._drive(v, prop, [json.load(open(replay))["scenario"]], lambda c: c["kind"])
+        return v.finish()
     if replay and json.load(open(replay))["scenario"].get("binding") == "gexpire":
         import p_expire
         p_expire.global_expire(v, tier, seed, [json.load(open(replay))["scenario"]])
@@ -271,4 +275,7 @@ def run(prop, tier, seed, replay=None):
     if prop == "C01" and not replay:
         import p_upload
         p_upload.payload_check(v, tier, seed)
+        # "returned at the offset it occupies", for offsets beyond 2^32
+        import p_http
+        p_http._drive(v, prop, [{"id": 0, "kind": "farread", "route": "C01"}], lambda c: c["kind"])
     return v.finish()
